@@ -307,6 +307,28 @@ def check_model(ctx, kind, m, twin_raise, p, handle, D, kw, hist, form):
                     ctx.ev("inverse-distance",
                            bool(np.all(np.abs(bf[pos] / flat[pos] - 1) <= 1e-9)),
                            n=int(pos.sum()), cls="linear", detail=d(back=bf[:4]))
+    else:
+        # models that do not offer an inverse say so (NotImplementedError or no
+        # value at all); should one start answering, the answer must be exact
+        pos = rf > 0
+        if pos.any() and not kw:
+            try:
+                back = m.which_distance_dB(r)
+            except NotImplementedError:
+                back = None
+            except Exception as e:       # noqa: BLE001
+                ctx.ev("inverse-distance", False, cls="not-offered:raised-%s" % type(e).__name__,
+                       detail=d(exc=repr(e)))
+                back = None
+            if back is None:
+                ctx.ev("inverse-distance", True, cls="not-offered")
+            else:
+                bf = np.asarray(back, dtype=float).ravel()
+                ctx.ev("inverse-distance", bf.shape == flat.shape and
+                       bool(np.all(np.abs(bf[pos] / flat[pos] - 1) <= 1e-9)),
+                       n=int(pos.sum()), cls="dB:%s" % kind, detail=d(back=bf[:4]))
+    if kind in ("general", "freespace", "3gpp"):
+        pos = rf > 0
         # closed-form anchors
         if kind == "freespace":
             n_, C_ = p["n"], 10 * p["n"] * (math.log10(p["fc"] * 1e6) - 4.377911390697565)
